@@ -36,6 +36,8 @@ type c13Transport struct {
 	pos    int
 	times  []time.Time // virtual instant of every POST that reached the transport
 	served []c13Resp
+	cancel func()      // ends the caller's context when the client turns into a retry storm
+	storm  bool
 }
 
 func (t *c13Transport) RoundTrip(req *http.Request) (*http.Response, error) {
@@ -58,11 +60,19 @@ func (t *c13Transport) RoundTrip(req *http.Request) (*http.Response, error) {
 		r = c13Resp{kind: "st", status: 503, raDesc: "-"} // an endless outage after the script
 	}
 	t.pos++
+	if t.pos > 200 && t.cancel != nil {
+		t.storm = true
+		t.cancel()
+	}
 	t.times = append(t.times, time.Now())
 	t.served = append(t.served, r)
 	switch r.kind {
 	case "neterr":
 		return nil, errors.New("verif: connection reset")
+	case "neterr-dl":
+		// what http.Client.Timeout / a dial timeout look like: a transport error that *wraps* context.DeadlineExceeded
+		// although the caller's context is alive
+		return nil, fmt.Errorf("verif: per-attempt timeout: %w", context.DeadlineExceeded)
 	case "ok":
 		return mk(200, `{"v":7}`, nil), nil
 	case "junk":
@@ -145,8 +155,10 @@ func TestVerifC13(t *testing.T) {
 			for i := 0; i < n; i++ {
 				var e c13Resp
 				switch rr.Intn(12) {
-				case 0, 1:
+				case 0:
 					e = c13Resp{kind: "neterr"}
+				case 1:
+					e = c13Resp{kind: []string{"neterr", "neterr-dl"}[rr.Intn(2)]}
 				case 2:
 					e = c13Resp{kind: "junk"}
 				case 3:
@@ -193,6 +205,7 @@ func TestVerifC13(t *testing.T) {
 			}
 			ctx, cancel := context.WithTimeout(context.Background(), deadline)
 			defer cancel()
+			tr.cancel = cancel
 			var rsp struct{ V int }
 			var hr *http.Response
 			var body []byte
@@ -242,11 +255,15 @@ func TestVerifC13(t *testing.T) {
 				return
 			}
 			retryable := func(e c13Resp) bool {
-				return e.kind == "neterr" || e.kind == "junk" || (e.kind == "st" && (e.status == 408 || e.status == 429 || e.status == 503)) ||
+				return e.kind == "neterr" || e.kind == "neterr-dl" || e.kind == "junk" || (e.kind == "st" && (e.status == 408 || e.status == 429 || e.status == 503)) ||
 					(e.kind == "redir" && e.redir != 307 && e.redir != 308)
 			}
 			success := func(e c13Resp) bool { return e.kind == "ok" || (e.kind == "redir" && (e.redir == 307 || e.redir == 308)) }
-			asked := false // has the server ever asked for a specific pause?
+			if tr.storm {
+				out.Fail(key, fmt.Sprintf("retry storm: more than 200 requests within %v of virtual time (no pacing)", end.Sub(start)))
+				return
+			}
+			var until time.Time // the latest instant any Retry-After so far asked the client to stay away until
 			for i, e := range tr.served {
 				last := i == len(tr.served)-1
 				if !last {
@@ -257,8 +274,8 @@ func TestVerifC13(t *testing.T) {
 					if e.kind == "st" && strings.HasPrefix(e.raDesc, "secs ") {
 						var s int
 						fmt.Sscanf(e.raDesc, "secs %d", &s)
-						if s > 0 {
-							asked = true
+						if u := tr.times[i].Add(time.Duration(s) * time.Second); u.After(until) {
+							until = u
 						}
 						if s >= 0 && gap < time.Duration(s)*time.Second {
 							out.Fail(key, fmt.Sprintf("retried %v after a Retry-After of %d s", gap, s))
@@ -267,13 +284,20 @@ func TestVerifC13(t *testing.T) {
 					if e.kind == "st" && strings.HasPrefix(e.raDesc, "date ") {
 						var d int64
 						fmt.Sscanf(e.raDesc, "date %d", &d)
-						asked = true
+						if u := time.Unix(0, d); u.After(until) {
+							until = u
+						}
 						if tr.times[i+1].UnixNano() < d {
 							out.Fail(key, fmt.Sprintf("retried at %d before the Retry-After date %d", tr.times[i+1].UnixNano(), d))
 						}
 					}
-					if !asked && gap > 128*time.Second+maxJitter {
-						out.Fail(key, fmt.Sprintf("waited %v although the server never asked for more than the cap", gap))
+					// never longer than the cap plus jitter, unless a Retry-After received so far asked for more
+					latest := tr.times[i].Add(128 * time.Second)
+					if until.After(latest) {
+						latest = until
+					}
+					if tr.times[i+1].After(latest.Add(maxJitter)) {
+						out.Fail(key, fmt.Sprintf("request %d came %v after the previous one; cap and every Retry-After so far allow at most %v", i+1, gap, latest.Add(maxJitter).Sub(tr.times[i])))
 					}
 					if e.kind == "st" && e.status == 408 && i == 0 && gap != 0 {
 						out.Fail(key, fmt.Sprintf("408 as first response was retried after %v", gap))
@@ -281,6 +305,9 @@ func TestVerifC13(t *testing.T) {
 				} else {
 					switch {
 					case outcome == "ctx":
+						if ctx.Err() == nil {
+							out.Fail(key, "a context error was returned although the caller's context is still alive")
+						}
 						if end.Sub(start) != deadline {
 							out.Fail(key, fmt.Sprintf("context error returned at %v, deadline %v", end.Sub(start), deadline))
 						}
